@@ -27,7 +27,7 @@ for j in $(seq 0 $((jobs-1))); do
       for n in $props; do
         NUMPOLY_REPO="$wt" VERIF_EVIDENCE_DIR="$scratch/ev$j" "$vdir/check" C$n >"$scratch/out$j" 2>&1; rc=$?
         [ $rc = 1 ] && flagged="$flagged C$n"; [ $rc = 2 ] && flagged="$flagged C$n(ERR)"
-        [ "C$n" = "$own" ] && rules=$(grep -o "\[R-[A-Z0-9-]*\]" "$scratch/out$j" | sort -u | tr -d '[]' | tr '\n' ',' | sed 's/,$//')
+        [ "C$n" = "$own" ] && rules=$(grep -v KNOWN-FINDING "$scratch/out$j" | grep -o "\[R-[A-Z0-9-]*\]" | sort -u | tr -d '[]' | tr '\n' ',' | sed 's/,$//')
       done
       echo "$name flagged=[$flagged ] own_rules=$rules"
     done
